@@ -161,6 +161,15 @@ func TestC16(t *testing.T) {
 		}
 	}
 
+	// the dialling side of a mismatched websocket handshake
+	for rep := 0; rep < r.Pick(2, 40); rep++ {
+		for _, tr := range []string{"ws", "wss"} {
+			for _, s := range []string{"pair", "xpair", "bus", "xbus", "pull", "xpull", "sub", "xsub"} {
+				cases = append(cases, mon.CaseSpec{Name: "wsdial", Spec: spec{Kind: "wsdial", Tr: tr, Sock: s, K: 1 + rnd.Intn(3)}})
+			}
+		}
+	}
+
 	r.Run(cases, func(c *mon.Case) {
 		sp := c.Spec.(spec)
 		defer func() {
@@ -187,6 +196,8 @@ func TestC16(t *testing.T) {
 			caseStall(c, sp)
 		case "reject":
 			caseReject(c, sp)
+		case "wsdial":
+			caseWSDial(c, sp)
 		}
 		hx.LedgerCheck(c)
 	})
